@@ -95,7 +95,7 @@ func TestVP_C30_authenticate(t *testing.T) {
 	c := kit.New(t, "C30", "rapid: signer key from 64 drawn seed bytes, random network and recipient ids, relayer flag byte in {0,1,2,255}, timeout in {10 (handshake), 5, 30, 600, 0 and -1 (freshness disabled by the caller)}, timestamp = now + {0, ±(timeout-2s), ±(timeout+2s), ±1 day, 0, 2^63, 2^64-1}; message from BuildAuthenticationMessage or from the harness assembler with one optional defect (wrong recipient, self, foreign signer, flag outside the signature, signature over another recipient, zero signature, wrong length); every accepted message is then mutated at each of the 137 bytes with 3 xor masks, truncated and extended; non-trivial = accepted message (with its full mutation sweep) or a single-defect twin; distinct by message bytes")
 	c.Require("accepted", "accepted:built", "accepted:assembled", "reject:stale-past", "reject:stale-future", "reject:recipient", "reject:self", "reject:foreign-signer", "reject:flag-unsigned", "reject:length", "accepted:timeout-disabled-old", "mutant-rejected", "flag:relayer", "flag:plain")
 	c.Assume("the wall clock advances less than 2 s between the harness reading it and AuthenticateAs reading it; cases where more than 1 s elapsed across the call are discarded (class clock-moved)")
-	kit.SetChecks(kit.N(400, 20000))
+	kit.SetChecks(kit.N(300, 20000))
 	rapid.Check(t, func(t *rapid.T) {
 		seed := rapid.SliceOfN(rapid.Byte(), 64, 64).Draw(t, "signer_seed")
 		signer := vpC30Signer(seed)
